@@ -1557,3 +1557,620 @@ func domFullWalk(r *engine.Run, rule string) {
 		r.Anchor(rule, fmt.Errorf("unresolved anchor: no iteration loop found in the node stores"))
 	}
 }
+
+// ---- round 8 ----------------------------------------------------------------------
+
+// agreeKindTag: "two tries with different content have different roots" needs the
+// hash pre-images of the node kinds to live in disjoint spaces. The three kinds
+// hash origin || encode(), where encode() is a ':'-separated field list whose
+// fields (paths, child keys, values) are arbitrary bytes; nothing in the pre-image
+// says which kind it is. An extension (path ':' childkey) and a leaf
+// (prefix ':' path ':' value) with prefix == extension path are the same bytes
+// when childkey == path ':' value - so an extension over a branch and a leaf
+// whose value is the tail of that branch's hash are one node, and two different
+// contents share a root (witness: findings/C02-kind-confusion).
+//
+// Rule: GetHashBytes of every node kind writes, besides the origin and its
+// encode(), a kind-distinguishing constant into the hashed buffer (a constant
+// byte, the serialization prefix, a type code), or the kinds' encode functions
+// emit different constant first bytes.
+func agreeKindTag(r *engine.Run, rule string) {
+	tagged := 0
+	var pos string
+	for _, T := range trieNodeTypes {
+		h := r.Fn(rule, pkgUtil, T, "GetHashBytes")
+		if h == nil {
+			return
+		}
+		if pos == "" {
+			pos = r.P.Pos(h.Pos())
+		}
+		var buf ssa.Value
+		engine.Instrs(h, func(in ssa.Instruction) {
+			if c, ok := in.(*ssa.Call); ok && extCalleeIs(c, "bytes", "", "NewBuffer") {
+				buf = c
+			}
+		})
+		has := false
+		engine.Instrs(h, func(in ssa.Instruction) {
+			c, ok := in.(*ssa.Call)
+			if !ok || buf == nil {
+				return
+			}
+			// a write of a constant (or of the type's serialization prefix) into the hashed buffer
+			switch {
+			case extCalleeIs(c, "bytes", "Buffer", "WriteByte"), extCalleeIs(c, "bytes", "Buffer", "Write"), extCalleeIs(c, "bytes", "Buffer", "WriteString"):
+				if c.Call.Args[0] == buf {
+					has = true
+				}
+			case extCalleeIs(c, "encoding/binary", "", "Write"):
+				if through(c.Call.Args[0]) == buf {
+					if _, isConst := through(c.Call.Args[2]).(*ssa.Const); isConst {
+						has = true
+					}
+				}
+			default:
+				if sc := c.Call.StaticCallee(); sc != nil && (sc.Name() == "writeNodePrefix" || sc.Name() == "GetSerializationPrefix") {
+					has = true
+				}
+			}
+		})
+		if has {
+			tagged++
+		}
+	}
+	r.Check(tagged == len(trieNodeTypes), rule, "util|hash pre-image of the node kinds", pos, "every kind writes a kind tag into its hash pre-image",
+		fmt.Sprintf("%d of %d node kinds put a kind tag into their hash pre-image: leaf, branch and extension pre-images share one space of ':'-separated byte strings, so an extension (path ':' childkey) and a leaf (prefix ':' path ':' value) with prefix == path collide when childkey == path ':' value - two different contents with the same root", tagged, len(trieNodeTypes)))
+}
+
+// domMergeAtomic: a merge is refused (an error is returned) only before the parent
+// is touched - the start-root comparison - or because a store operation of the
+// replay itself failed. An error return that is reached after the replay for any
+// other reason (a sanity check on the result, say) leaves the parent with the
+// child's nodes and deletes applied but its old root: "a rejected merge leaves the
+// parent exactly as it was" fails, and for a child that emptied the trie the
+// check itself fails (a nil root resolves to nothing).
+func domMergeAtomic(r *engine.Run, rule string) {
+	f := r.Fn(rule, pkgUtil, "MerklePatriciaTrie", "mergeChanges")
+	if f == nil {
+		return
+	}
+	group := opGroup(r, f)
+	var replay []*ssa.Call
+	engine.Instrs(f, func(in ssa.Instruction) {
+		c, ok := in.(*ssa.Call)
+		if !ok {
+			return
+		}
+		sc := c.Call.StaticCallee()
+		if sc == nil {
+			return
+		}
+		if isNodeInstaller(r, c) || sc.Name() == "insertNode" || sc.Name() == "deleteNode" || (sc != f && inGroup(group, sc) && (callsInstaller(r, sc) || callsNamed(sc, "deleteNode"))) {
+			replay = append(replay, c)
+		}
+	})
+	if len(replay) == 0 {
+		r.Anchor(rule, fmt.Errorf("unresolved anchor: replay calls in %s", fn(f)))
+		return
+	}
+	o := ord{}
+	n := 0
+	for _, ret := range engine.Returns(f) {
+		if len(ret.Results) != 1 {
+			continue
+		}
+		ev := resultValue(ret, 0)
+		if nilConst(ev) {
+			continue
+		}
+		after := false
+		for _, c := range replay {
+			if engine.ReachableAfter(c, ret) {
+				after = true
+			}
+		}
+		if !after {
+			continue
+		}
+		n++
+		own := false
+		for _, c := range replay {
+			if ev == ssa.Value(c) {
+				own = true
+			}
+			if ex, ok := ev.(*ssa.Extract); ok && ex.Tuple == ssa.Value(c) {
+				own = true
+			}
+		}
+		r.Check(own, rule, o.next(fn(f)+"|error after the replay"), r.P.Pos(ret.Pos()), "the only errors returned once the replay has begun are those of the replay's own store operations",
+			"mergeChanges can return an error after it has replayed (part of) the child's changes for a reason other than a failed store operation: the merge is reported as refused while the parent already holds the child's nodes and deletes under its old root - its content, root and pending changes are not what they were, and a child whose view is the empty trie (nil root) can never be merged")
+	}
+	r.OK(rule, fn(f)+"|replay", r.P.Pos(f.Pos()), fmt.Sprintf("%d replay calls, %d error returns after them judged", len(replay), n))
+}
+
+// lockRootWrite: a method of the weighted trie that takes the trie's lock does all
+// of its work on the root under it: a call of another method of the same trie
+// that writes the root field (the exported, unlocked Delete, say) is dominated by
+// the Lock.
+func lockRootWrite(r *engine.Run, rule string) {
+	writesRoot := map[*ssa.Function]bool{}
+	fns := funcsOfPkg(r, pkgWMPT)
+	for _, g := range fns {
+		if len(g.Blocks) == 0 || recvNamed(g) != "WeightedMerkleTrie" {
+			continue
+		}
+		engine.Instrs(g, func(in ssa.Instruction) {
+			if st, ok := in.(*ssa.Store); ok {
+				if fa, ok := st.Addr.(*ssa.FieldAddr); ok && len(g.Params) > 0 && fa.X == ssa.Value(g.Params[0]) && engine.FieldOf(fa).Name() == "root" {
+					writesRoot[g] = true
+				}
+			}
+		})
+	}
+	n := 0
+	for _, f := range fns {
+		if len(f.Blocks) == 0 || recvNamed(f) != "WeightedMerkleTrie" || f.Parent() != nil {
+			continue
+		}
+		var lock *ssa.Call
+		engine.Instrs(f, func(in ssa.Instruction) {
+			if c, ok := in.(*ssa.Call); ok {
+				if _, op, isLock := engine.LockOp(c); isLock && op == "Lock" && lock == nil {
+					lock = c
+				}
+			}
+		})
+		if lock == nil {
+			continue
+		}
+		n++
+		o := ord{}
+		engine.Instrs(f, func(in ssa.Instruction) {
+			c, ok := in.(*ssa.Call)
+			if !ok {
+				return
+			}
+			g := c.Call.StaticCallee()
+			if g == nil || !writesRoot[g] || len(c.Call.Args) == 0 || c.Call.Args[0] != ssa.Value(f.Params[0]) {
+				return
+			}
+			r.Check(engine.InstrDominates(lock, c), rule, o.next(fn(f)+"|root-writing call"), r.P.Pos(c.Pos()), "called with the trie's lock held",
+				fn(f)+" takes the trie's lock but calls "+g.Name()+", which rewrites the root, outside it: the goroutine-safe entry point runs removals unlocked, and a concurrent insert loses weight updates and children")
+		})
+	}
+	if n < 2 {
+		r.Anchor(rule, fmt.Errorf("unresolved anchor: %d locking methods of the weighted trie", n))
+	}
+}
+
+// domReject: block numbers run from 1 to the total weight, and a subtree of weight
+// w owns the blocks 1..w that reach it. A rejection with ErrWeightNotInRange that
+// follows a comparison of the block with a weight is sound only for
+// block > weight; `block >= weight` turns the last block of a subtree away.
+func domReject(r *engine.Run, rule string) {
+	n := 0
+	for _, f := range funcsOfPkg(r, pkgWMPT) {
+		if len(f.Blocks) == 0 {
+			continue
+		}
+		o := ord{}
+		for _, ret := range engine.Returns(f) {
+			isReject := false
+			for i := range ret.Results {
+				if ld, ok := resultValue(ret, i).(*ssa.UnOp); ok {
+					if g, ok := ld.X.(*ssa.Global); ok && g.Name() == "ErrWeightNotInRange" {
+						isReject = true
+					}
+				}
+			}
+			if !isReject {
+				continue
+			}
+			n++
+			// the comparison that leads here: the If of the single predecessor
+			b := ret.Block()
+			if len(b.Preds) != 1 {
+				r.OK(rule, o.next(fn(f)+"|rejection"), r.P.Pos(ret.Pos()), "not reached through a single comparison (loop exhaustion or a merge of paths)")
+				continue
+			}
+			p := b.Preds[0]
+			iff, ok := p.Instrs[len(p.Instrs)-1].(*ssa.If)
+			if !ok {
+				r.OK(rule, o.next(fn(f)+"|rejection"), r.P.Pos(ret.Pos()), "not reached through a comparison")
+				continue
+			}
+			bo, ok := iff.Cond.(*ssa.BinOp)
+			if !ok {
+				r.OK(rule, o.next(fn(f)+"|rejection"), r.P.Pos(ret.Pos()), "not a comparison of the block with a weight")
+				continue
+			}
+			onTrue := p.Succs[0] == b
+			x, y, op := bo.X, bo.Y, bo.Op
+			wx, wy := weightSource(x) != nil, weightSource(y) != nil
+			if wx == wy {
+				r.OK(rule, o.next(fn(f)+"|rejection"), r.P.Pos(ret.Pos()), "not a comparison of the block with a weight")
+				continue
+			}
+			if wx { // weight OP block  ->  block OP' weight
+				x, y = y, x
+				switch op {
+				case token.LSS:
+					op = token.GTR
+				case token.LEQ:
+					op = token.GEQ
+				case token.GTR:
+					op = token.LSS
+				case token.GEQ:
+					op = token.LEQ
+				}
+			}
+			if !onTrue {
+				switch op {
+				case token.LSS:
+					op = token.GEQ
+				case token.LEQ:
+					op = token.GTR
+				case token.GTR:
+					op = token.LEQ
+				case token.GEQ:
+					op = token.LSS
+				}
+			}
+			_ = x
+			_ = y
+			r.Check(op == token.GTR, rule, o.next(fn(f)+"|rejection"), r.P.Pos(iff.Cond.Pos()), "rejected only where block > weight",
+				"a block is rejected as out of range where block "+op.String()+" weight holds: blocks are numbered from 1, the subtree of weight w owns 1..w, so anything but block > weight turns away a block the subtree owns (the last block of a collapsed subtree gets no proof) or lets a foreign one in")
+		}
+	}
+	if n < 4 {
+		r.Anchor(rule, fmt.Errorf("unresolved anchor: %d range rejections in the weighted trie", n))
+	}
+}
+
+// agreeLevels: a path has levels-1 elements and the verifier folds exactly that
+// many times, so the level count computeSize hands to ComputeTree and SetTree has
+// to be the number of halving steps of its own size loop plus one. Accepted
+// forms of the second result: the loop's own counter plus one; the constant for
+// the single-leaf tree; the closed form bits.Len(uint(leaves-1)) + 1. The closed
+// form bits.Len(uint(leaves)) + 1 is one too high exactly for full trees.
+func agreeLevels(r *engine.Run, rule string, size *ssa.Function) {
+	if size == nil {
+		return
+	}
+	var leaves ssa.Value
+	if len(size.Params) >= 2 {
+		leaves = size.Params[1]
+	}
+	o := ord{}
+	n := 0
+	for _, ret := range engine.Returns(size) {
+		if len(ret.Results) != 2 {
+			continue
+		}
+		n++
+		v := resultValue(ret, 1)
+		good, why := true, "level count not in a form this rule judges"
+		if _, ok := intConst(v); ok {
+			why = "constant (single-leaf tree)"
+		} else if b, ok := v.(*ssa.BinOp); ok && b.Op == token.ADD {
+			k, isK := intConst(b.Y)
+			inner := b.X
+			if !isK {
+				k, isK = intConst(b.X)
+				inner = b.Y
+			}
+			if isK {
+				if c, ok := stripConv(inner).(*ssa.Call); ok && extCalleeIs(c, "math/bits", "", "Len") {
+					arg := stripConv(c.Call.Args[0])
+					minusOne := false
+					if sb, ok := arg.(*ssa.BinOp); ok && sb.Op == token.SUB {
+						if one, ok := intConst(sb.Y); ok && one == 1 && stripConv(sb.X) == leaves {
+							minusOne = true
+						}
+					}
+					good = minusOne && k == 1
+					why = "closed form bits.Len(leaves-1)+1"
+				} else if ph, ok := inner.(*ssa.Phi); ok && scanInduction(ph) {
+					good = k == 1
+					why = "the size loop's own counter plus one"
+				}
+			}
+		} else if ph, ok := v.(*ssa.Phi); ok && scanInduction(ph) {
+			why = "a loop counter"
+		}
+		r.Check(good, rule, o.next(fn(size)+"|level count"), r.P.Pos(ret.Pos()), why,
+			"the level count is not the number of halving steps plus one (closed form other than bits.Len(leaves-1)+1, or an offset other than one): for a leaf count that is a power of two every path gets one element too many, the verifier folds once too often, and no path of a full tree verifies")
+	}
+	if n < 1 {
+		r.Anchor(rule, fmt.Errorf("unresolved anchor: returns of computeSize"))
+	}
+}
+
+// freshPath: the node list of a path handed out by the prover belongs to the
+// caller: it is made in the call, not carved out of memory the tree keeps (the
+// next request would rewrite the path an earlier caller still holds, which then
+// proves another leaf).
+func freshPath(r *engine.Run, rule string, prove *ssa.Function) {
+	if prove == nil {
+		return
+	}
+	n := 0
+	for _, g := range opGroup(r, prove) {
+		o := ord{}
+		engine.Instrs(g, func(in ssa.Instruction) {
+			st, ok := in.(*ssa.Store)
+			if !ok {
+				return
+			}
+			fa, ok := st.Addr.(*ssa.FieldAddr)
+			if !ok || engine.FieldOf(fa).Name() != "Nodes" || !isNamed(fa.X.Type(), pkgUtil, "MTPath") {
+				return
+			}
+			n++
+			v := st.Val
+			for {
+				if s, ok := v.(*ssa.Slice); ok {
+					v = s.X
+					continue
+				}
+				break
+			}
+			_, made := v.(*ssa.MakeSlice)
+			if c, ok := v.(*ssa.Call); ok {
+				if b, ok := c.Call.Value.(*ssa.Builtin); ok && b.Name() == "append" {
+					if base, ok := c.Call.Args[0].(*ssa.Const); ok && base.Value == nil {
+						made = true
+					}
+				}
+			}
+			fromField := false
+			if ld, ok := v.(*ssa.UnOp); ok {
+				if fa2, ok := ld.X.(*ssa.FieldAddr); ok && len(g.Params) > 0 && engine.AddrRoot(fa2) == ssa.Value(g.Params[0]) {
+					fromField = true
+				}
+			}
+			r.Check(made && !fromField, rule, o.next(fn(g)+"|path nodes"), r.P.Pos(st.Pos()), "the path's node list is made in the call",
+				"the node list of the path handed out is not a slice made for this call (it is carved out of memory the tree keeps): the next path request rewrites it, so a path produced earlier stops proving its leaf and proves another one")
+		})
+	}
+	if n < 1 {
+		r.Anchor(rule, fmt.Errorf("unresolved anchor: store of MTPath.Nodes in the prover"))
+	}
+}
+
+// shareLevel: a derived core forwards its entries to the root's ring, and whether an
+// entry is kept is decided by the level enabler the derived core carries. It must
+// be the parent's enabler itself (the same interface value: an AtomicLevel stays
+// shared), not a snapshot of the level it holds at derivation time.
+func shareLevel(r *engine.Run, rule string) {
+	f := r.Fn(rule, pkgLog, "MemCore", "clone")
+	if f == nil {
+		return
+	}
+	n := 0
+	engine.Instrs(f, func(in ssa.Instruction) {
+		st, ok := in.(*ssa.Store)
+		if !ok {
+			return
+		}
+		fa, ok := st.Addr.(*ssa.FieldAddr)
+		if !ok || engine.FieldOf(fa) == nil || engine.FieldOf(fa).Name() != "LevelEnabler" {
+			return
+		}
+		if _, fresh := engine.AddrRoot(fa).(*ssa.Alloc); !fresh {
+			return
+		}
+		n++
+		fld := fieldLoadOf(st.Val)
+		good := fld != nil && fld.Name() == "LevelEnabler"
+		r.Check(good, rule, fn(f)+"|level enabler of the derived core", r.P.Pos(st.Pos()), "the derived core carries the parent's level enabler itself",
+			"a derived core does not carry its parent's level enabler but something computed from it (a snapshot of the current level): when the buffer's level is lowered at run time, entries written through loggers derived earlier are still turned away and never reach the ring")
+	})
+	if n < 1 {
+		r.Anchor(rule, fmt.Errorf("unresolved anchor: level enabler of the derived core in %s", fn(f)))
+	}
+}
+
+// cloneComplete: CloneNode is how the memory and layered stores keep and hand out
+// nodes: the copy it builds has to carry every field of the node. A field that
+// the copy does not get (a cached count added to the struct and maintained by the
+// setters, say) is zero in every node that went through a store, while the node
+// that was built in place has it - the trie then behaves differently through a
+// second handle than through the one that wrote.
+//
+// Rule: in the CloneNode of every node type, every field of the struct is written
+// on the copy: stored directly (or element-wise), or written by a method called
+// on the copy.
+func cloneComplete(r *engine.Run, rule string) {
+	n := 0
+	for _, f := range funcsOfPkg(r, pkgUtil) {
+		if f.Parent() != nil || f.Name() != "CloneNode" || len(f.Blocks) == 0 || !nodeTypeNames[recvNamed(f)] {
+			continue
+		}
+		// the copy: a heap Alloc of the receiver's struct type
+		var cp *ssa.Alloc
+		engine.Instrs(f, func(in ssa.Instruction) {
+			if al, ok := in.(*ssa.Alloc); ok && al.Heap {
+				if nm := namedOf(al.Type()); nm != nil && nm.Obj().Name() == recvNamed(f) {
+					cp = al
+				}
+			}
+		})
+		if cp == nil {
+			continue
+		}
+		st, ok := cp.Type().Underlying().(*types.Pointer).Elem().Underlying().(*types.Struct)
+		if !ok {
+			continue
+		}
+		n++
+		covered := map[string]bool{}
+		var mark func(v ssa.Value, depth int)
+		mark = func(v ssa.Value, depth int) {
+			for _, ref := range engine.Referrers(v) {
+				switch x := ref.(type) {
+				case *ssa.FieldAddr:
+					if x.X == v {
+						if fld := engine.FieldOf(x); fld != nil {
+							written := false
+							var w func(a ssa.Value, d int)
+							w = func(a ssa.Value, d int) {
+								for _, r2 := range engine.Referrers(a) {
+									switch y := r2.(type) {
+									case *ssa.Store:
+										if y.Addr == a {
+											written = true
+										}
+									case *ssa.IndexAddr:
+										if d < 2 {
+											w(y, d+1)
+										}
+									}
+								}
+							}
+							w(x, 0)
+							if written {
+								covered[fld.Name()] = true
+							}
+						}
+					}
+				case *ssa.Call:
+					// a method called on the copy: the receiver fields it stores to
+					if g := x.Call.StaticCallee(); g != nil && len(x.Call.Args) > 0 && x.Call.Args[0] == v && len(g.Blocks) > 0 {
+						engine.Instrs(g, func(in2 ssa.Instruction) {
+							if s2, ok := in2.(*ssa.Store); ok {
+								if fa, ok := s2.Addr.(*ssa.FieldAddr); ok && engine.AddrRoot(fa) == ssa.Value(g.Params[0]) {
+									if fld := engine.FieldOf(fa); fld != nil {
+										covered[fld.Name()] = true
+									}
+								}
+								if ia, ok := s2.Addr.(*ssa.IndexAddr); ok {
+									if fa, ok := ia.X.(*ssa.FieldAddr); ok && engine.AddrRoot(fa) == ssa.Value(g.Params[0]) {
+										if fld := engine.FieldOf(fa); fld != nil {
+											covered[fld.Name()] = true
+										}
+									}
+								}
+							}
+						})
+					}
+				}
+			}
+		}
+		mark(cp, 0)
+		var missing []string
+		for i := 0; i < st.NumFields(); i++ {
+			if !covered[st.Field(i).Name()] {
+				missing = append(missing, st.Field(i).Name())
+			}
+		}
+		r.Check(len(missing) == 0, rule, fn(f)+"|every field copied", r.P.Pos(f.Pos()), fmt.Sprintf("all %d fields of the node are written on the copy", st.NumFields()),
+			fn(f)+" does not give the copy the field(s) "+strings.Join(missing, ", ")+": every node that went through a memory or layered store has them zero while the node built in place has them set, so an operation through a second trie handle (cold cache) decides differently than through the handle that wrote - e.g. a cached child count of zero skips every collapse, and the root then depends on the history")
+	}
+	if n < 3 {
+		r.Anchor(rule, fmt.Errorf("unresolved anchor: %d CloneNode methods building a copy found", n))
+	}
+}
+
+// surveyComplete (clause of DOM-survey): once the survey has found the node it was
+// handed, what it returns is nil or an error it tested not to be the absent-node
+// sentinel: an absent child has been recorded in the list, and handing its
+// ErrNodeNotFound up makes GetAllMissingNodes drop the whole list.
+func surveyReturns(r *engine.Run, rule string, survey *ssa.Function, lookups []*ssa.Call) {
+	o := ord{}
+	for _, ret := range engine.Returns(survey) {
+		if len(ret.Results) != 1 {
+			continue
+		}
+		ev := resultValue(ret, 0)
+		if nilConst(ev) {
+			continue
+		}
+		// the lookup's own error path
+		own := false
+		for _, l := range lookups {
+			if ex, ok := ev.(*ssa.Extract); ok && ex.Tuple == ssa.Value(l) {
+				own = true
+			}
+		}
+		if own {
+			continue
+		}
+		good := false
+		if facts, ok := engine.FactsOn(survey, ret.Block()); ok {
+			for _, ft := range facts {
+				if ft.Kind != "eq" || ft.Truth {
+					continue
+				}
+				for _, pr := range [][2]ssa.Value{{ft.A, ft.B}, {ft.B, ft.A}} {
+					if pr[0] != ev {
+						continue
+					}
+					if ld, ok := pr[1].(*ssa.UnOp); ok {
+						if g, ok := ld.X.(*ssa.Global); ok && g.Name() == "ErrNodeNotFound" {
+							good = true
+						}
+					}
+				}
+			}
+		}
+		r.Check(good, rule, o.next(fn(survey)+"|error handed up"), r.P.Pos(ret.Pos()), "an error of a child's survey is handed up only where it tested not to be the absent-node sentinel",
+			"the survey hands a child's error up without having excluded the absent-node sentinel: the absent child was recorded in the list, but its ErrNodeNotFound travels to GetAllMissingNodes, which then returns the error and drops the list (for a trie whose root is an extension over the absent node: no missing keys reported although HasMissingNodes says true)")
+	}
+}
+
+// lockBatch / kvOps: the storage adapter the weighted trie commits through. Commit
+// saves the subtrees of a branch root from parallel goroutines into one batch, so
+// the batch's Put and Delete hold its mutex; and each adapter operation maps to
+// the pebble operation of the same meaning (Put -> Set, Delete -> Delete - not
+// SingleDelete, which is only sound for keys written exactly once, and nodes are
+// re-written under the same hash by every commit that saves them again).
+func kvAdapter(r *engine.Run, rule string) {
+	const pkgKV = "core/util/storage/kv"
+	n := 0
+	for _, f := range funcsOfPkg(r, pkgKV) {
+		if len(f.Blocks) == 0 || f.Parent() != nil {
+			continue
+		}
+		rn := recvNamed(f)
+		if rn != "batch" && rn != "PebbleAdapter" {
+			continue
+		}
+		want := map[string]string{"Put": "Set", "Delete": "Delete", "Get": "Get"}[f.Name()]
+		if want == "" {
+			continue
+		}
+		var op *ssa.Call
+		bad := ""
+		var lock *ssa.Call
+		engine.Instrs(f, func(in ssa.Instruction) {
+			c, ok := in.(*ssa.Call)
+			if !ok {
+				return
+			}
+			if _, opn, isLock := engine.LockOp(c); isLock && opn == "Lock" {
+				lock = c
+			}
+			sc := c.Call.StaticCallee()
+			if sc == nil || sc.Pkg == nil || !strings.Contains(sc.Pkg.Pkg.Path(), "cockroachdb/pebble") {
+				return
+			}
+			if sc.Name() == want {
+				op = c
+			} else if sc.Name() != "Close" {
+				bad = sc.Name()
+			}
+		})
+		n++
+		r.Check(op != nil && bad == "", rule, fn(f)+"|pebble operation", r.P.Pos(f.Pos()), f.Name()+" maps to pebble's "+want,
+			fn(f)+" does not map to pebble's "+want+" (calls "+bad+"): the adapter's operation no longer means what the trie relies on - SingleDelete, for one, only removes the newest of several writes of a key, and nodes are written again under the same hash by every commit that saves them, so a deleted node stays readable or a rollback's purge leaves nodes behind")
+		if rn == "batch" && f.Name() != "Get" && op != nil {
+			r.Check(lock != nil && engine.InstrDominates(lock, op), rule, fn(f)+"|under the batch mutex", r.P.Pos(op.Pos()), "the batch operation runs under the batch's mutex",
+				"the batch's "+f.Name()+" does not hold the batch's mutex: Commit saves the subtrees of a branch root from parallel goroutines into one pebble batch, which is not safe for concurrent use - records are lost or the batch is corrupted")
+		}
+	}
+	if n < 4 {
+		r.Anchor(rule, fmt.Errorf("unresolved anchor: %d adapter operations found in %s", n, pkgKV))
+	}
+}
